@@ -349,6 +349,8 @@ func rulesC01(c *Ctx) {
 		c.Pin("Retire site", n, 1)
 	})
 
+	c.Rule("R-C01-8", "a transport's producer goroutine cannot die silently: its exit always reaches the session's reader (close or error), otherwise pending calls stay blocked (streamable client: R-C09-3)", func() { ruleC01ProducerExit(c) })
+
 	c.Rule("R-C01-7", "closing errors are mapped to ErrConnectionClosed before the context arm; shuttingDown returns nil or an error wrapping its argument", func() {
 		call := c.Fn(pM, "", "call")
 		errClosed := c.Obj(pM, "ErrConnectionClosed")
@@ -400,6 +402,63 @@ func rulesC01(c *Ctx) {
 		}
 		c.Pin("shuttingDown returns", len(sd.Returns()), 3)
 	})
+}
+
+func ruleC01ProducerExit(c *Ctx) {
+	// (1) SSE client: the goroutine that pumps events into incoming closes the transport on every exit
+	sc := c.Fn(pM, "SSEClientTransport", "Connect")
+	inF := c.Field(pM, "sseClientConn", "incoming")
+	closeObj := c.FnObj(pM, "sseClientConn", "Close")
+	n := 0
+	for _, gs := range sc.goStmts() {
+		lit := sc.LitArgOfGo(gs)
+		if lit == nil || len(sendsOn(lit, inF)) == 0 {
+			continue
+		}
+		n++
+		c.touch(lit)
+		lg := lit.Graph()
+		isClose := func(v int) bool { nd := lg.Node(v); return nd != nil && lit.ContainsCall(nd, closeObj) }
+		ok, path := lg.MustPass(lg.Entry, lg.Exits, isClose)
+		if isClose(lg.Entry) {
+			ok = true
+		}
+		if ok {
+			c.Ok("sse-client-pump:closes-on-every-exit", lit, gs, "every exit of the event pump (read error, end of stream, client close) passes a (deferred) Close of the connection, so a blocked Read returns and pending calls are drained")
+		} else {
+			c.Fail("sse-client-pump:closes-on-every-exit", lit, gs, "the event pump can exit without closing the connection (%s): Read never returns, the jsonrpc2 reader never exits, pending calls and Wait hang", lg.PathString(path))
+		}
+	}
+	c.Pin("SSE client pump goroutine", n, 1)
+	// (2) ndjson reader goroutine: it exits only after handing the error to Read or after Close
+	nio := c.Fn(pM, "", "newIOConn")
+	m := 0
+	for _, gs := range nio.goStmts() {
+		lit := nio.LitArgOfGo(gs)
+		if lit == nil {
+			continue
+		}
+		m++
+		c.touch(lit)
+		lg := lit.Graph()
+		var sends []int
+		for v := 0; v < lg.N; v++ {
+			if _, ok := lg.Node(v).(*ast.SendStmt); ok {
+				sends = append(sends, v)
+			}
+		}
+		c.Need(len(sends) == 1, "newIOConn reader: one send on incoming")
+		for i, r := range lit.Returns() {
+			if r.Pos() == lit.Body.End()-1 {
+				continue
+			}
+			rv := lg.VertexOf(r)
+			_, inClosedArm := lit.ParentOf(r).(*ast.CommClause)
+			afterSend := lg.Dominates(sends[0], rv) && hasAtom(lg.GuardsAt(rv), func(a Atom) bool { return AtomSaysNil(a, false, func(e ast.Expr) bool { return exprStr(e) == "err" }) })
+			c.Check(inClosedArm || afterSend, "ioConn-reader:return#"+itoa(i), lit, r, "the reader goroutine exits only on the closed arm or after the read error has been handed to Read (so the session observes the failure)")
+		}
+	}
+	c.Pin("ioConn reader goroutine", m, 1)
 }
 
 // checkCallRetireSite: a retire directly in Connection.Call must be on a path where ac has not been
